@@ -732,6 +732,44 @@ func runC02(c *Ctx) {
 		}
 	}
 
+	// ---- (e') hash envelopes as a peer writes them, through VerifyHashEnvelope with a spy verifier ----
+	for i := 0; i < c.N(400, 20000); i++ {
+		r := mon.NewRand(uint64(c.Seed)).Sub(uint64(6500000 + i))
+		alg := int64(-7)
+		prot := refcbor.NMap(refcbor.NInt(1), refcbor.NInt(alg), refcbor.NInt(258), refcbor.NInt(mon.Pick(r, int64(-16), int64(-43), int64(-44))))
+		if r.Bool() {
+			prot.Kids = append(prot.Kids, refcbor.NInt(259), refcbor.NTstr("text/plain"))
+		}
+		if r.Bool() {
+			prot.Kids = append(prot.Kids, refcbor.NInt(260), refcbor.NTstr("https://example.com/x"))
+		}
+		if r.Bool() {
+			prot.Kids = append(prot.Kids, refcbor.NInt(4), refcbor.NBstr(gen.BytesValue(r)), refcbor.NTstr(gen.TextValue(r)+"-x"), gen.WireValue(r, 1, false))
+		}
+		gen.Scramble(r, prot, 70)
+		ha, _ := refcose.Lookup(prot, 258).Int64()
+		payload := r.Bytes(map[int64]int{-16: 32, -43: 48, -44: 64}[ha])
+		wm := &gen.WSign1{L: gen.WLayer{ProtMap: prot, Unprot: refcbor.NMap(refcbor.NInt(4), refcbor.NBstr([]byte("k")))}, Payload: payload, Sig: mon.FixedSig, Tagged: true}
+		wm.L.ProtWidth = gen.HeadWidths[i%5]
+		b := wm.Bytes()
+		in := map[string]any{"case": i, "family": "hash envelope as a peer writes it", "wire": mon.FullHex(b)}
+		vspy := &mon.SpyVerifier{Alg: cose.Algorithm(alg)}
+		var err error
+		if guard(rec, "VerifyHashEnvelope", in, func() { _, err = cose.VerifyHashEnvelope(vspy, b) }) {
+			continue
+		}
+		rec.Eval(1)
+		rec.Event("VerifyHashEnvelope(spy)")
+		canon, _ := refcbor.IsCanonical(wm.L.Content())
+		rec.Class(fmt.Sprintf("hashenv/verify/bodyw=%d/canon=%v", wm.L.ProtWidth, canon))
+		if vspy.Calls == 0 {
+			rec.Event("VerifyHashEnvelope(spy):not-reached")
+			continue
+		}
+		if want := wm.TBS(nil, payload); !eqBytes(vspy.Last(), want) {
+			rec.Violate("tbs-mismatch", "hashenv/verify", fmt.Sprintf("verifier got %s\nreference    %s (err=%v)", hexs(vspy.Last()), hexs(want), err), in)
+		}
+	}
 	// ---- (f) the Sign helpers with sparse headers: what the signer saw is what the message carries ----
 	// (zero-value Headers, nil protected map, nil unprotected map, empty maps; with and without alg and
 	// external data; the protected bytes inside the recorded ToBeSigned are the ones emitted)
